@@ -6,6 +6,7 @@ use std::path::Path;
 use std::time::Instant;
 
 pub mod c03;
+pub mod c04;
 pub mod c05;
 pub mod c06;
 pub mod c08;
@@ -22,6 +23,7 @@ type ReplayFn = fn(&Value) -> Outcome;
 
 const TABLE: &[(&str, RunFn, ReplayFn)] = &[
     ("C03", c03::run, c03::replay),
+    ("C04", c04::run, c04::replay),
     ("C05", c05::run, c05::replay),
     ("C06", c06::run, c06::replay),
     ("C08", c08::run, c08::replay),
